@@ -17,3 +17,5 @@ def run(ctx):
         alac.run(ctx, "C01", 96 if q else 960)
         from .. import alaccore       # the ALAC codec CORE (lean/SfModel/AlacCore.lean …): library packets decoded by the model, escape packets re-encoded, hostile packets
         alaccore.run(ctx, "C01", 60 if q else 900)
+        from .. import precmd         # round trips after the format-affecting COMMANDS a writer may issue before the audio (SFC_WAVEX_SET_AMBISONIC, SFC_SET_ADD_PEAK_CHUNK, SFC_RF64_AUTO_DOWNGRADE, switches, codec parameters) x every lossless (container, encoding)
+        precmd.run(ctx, "C01")
